@@ -22,6 +22,7 @@ import hashlib
 import json
 import math
 import multiprocessing as mp
+import multiprocessing.pool
 import os
 import sys
 import time
@@ -220,6 +221,9 @@ class Check:
 def run_case(check, case, known):
     """Run one case; never raises for library faults (they become clause failures)."""
     out = Outcome(known)
+    # code under test that draws from numpy's global generator (scipy's global optimisers, unseeded samplers) is made a
+    # pure function of the case, in generated runs and in replays alike
+    np.random.seed(int(case_hash(case)[:8], 16))
     try:
         check.check(case, out)
     except HarnessError:
@@ -418,6 +422,28 @@ def write_evidence(check, tier, seed, stats, wall, violations, known_lines, extr
     os.replace(tmp, os.path.join(d, '%s.json' % check.pid))
 
 
+class _NoDaemonProcess(mp.get_context('fork').Process):
+    """shard workers may start worker processes of their own (scipy's differential_evolution with workers != 1 does);
+    daemonic processes are not allowed to"""
+    @property
+    def daemon(self):
+        return False
+
+    @daemon.setter
+    def daemon(self, value):
+        pass
+
+
+class _NoDaemonContext(type(mp.get_context('fork'))):
+    Process = _NoDaemonProcess
+
+
+class _Ctx:
+    @staticmethod
+    def Pool(n):
+        return multiprocessing.pool.Pool(n, context=_NoDaemonContext())
+
+
 def run_check(check, tier, seed, workers=None, time_cap=None):
     from vf.known import Known
     t0 = time.time()
@@ -453,7 +479,7 @@ def run_check(check, tier, seed, workers=None, time_cap=None):
     fixed = list(check.fixed_cases(tier))
     # reproducers of repaired findings are ordinary regression cases (they suppress nothing)
     fixed += [e['reproducer'] for e in known.entries() if e.get('status') == 'fixed' and e.get('reproducer')]
-    ctx = mp.get_context('fork')
+    ctx = _Ctx
     if fixed:
         chunks = [fixed[i::workers] for i in range(workers)] if len(fixed) > 2 * workers else [fixed]
         if len(chunks) == 1:
